@@ -257,7 +257,7 @@ def shard_task(args):
         setup_library(config)
         mod = load_prop(prop_id)
         ctx = Ctx(prop_id, tier, config, matchers=load_matchers(prop_id))
-        deadline = t0 + time_limit
+        deadline = time_limit if time_limit > 1e9 else t0 + time_limit   # absolute wall-clock deadline set by the parent
 
         if mode == 'exhaustive':
             for i, case in enumerate(mod.exhaustive(tier, config)):
@@ -393,7 +393,8 @@ def run_check(prop_id, tier, seed):
     mod_meta = _meta(prop_id)
     configs = mod_meta['CONFIGS']
     budget = mod_meta['BUDGET'][tier]
-    time_limit = mod_meta.get('TIME_LIMIT', {}).get(tier, 240 if tier == 'quick' else 3000)
+    # one wall-clock budget for the whole run (all shards share the absolute deadline)
+    time_limit = t0 + mod_meta.get('TIME_LIMIT', {}).get(tier, 240 if tier == 'quick' else 3000)
     nshards = NPROC if tier == 'quick' else NPROC * 4
     violations = []      # (bucket, replay path)
     known_lines = []
